@@ -143,13 +143,32 @@ func c11ResolveRouter(c *core.Ctx) *c11Router {
 			}
 		}
 	}
+	// request-serving functions of a generation type: a method with the handler signature or a
+	// package-level function (instance, http.ResponseWriter, *http.Request)
+	servingOf := func(t *types.Named) []*types.Func {
+		var out []*types.Func
+		for _, m := range c11Methods(t) {
+			if c11HandlerSig(m.Type().(*types.Signature)) {
+				out = append(out, m)
+			}
+		}
+		for o := range decls {
+			sig := o.Type().(*types.Signature)
+			if sig.Recv() != nil || sig.Params().Len() != 3 || sig.Results().Len() != 0 {
+				continue
+			}
+			if c11IsNamed(sig.Params().At(0).Type(), pkg.Types.Path(), t.Obj().Name()) &&
+				c11IsNamed(sig.Params().At(1).Type(), "net/http", "ResponseWriter") && c11IsNamed(sig.Params().At(2).Type(), "net/http", "Request") {
+				out = append(out, o)
+			}
+		}
+		sort.Slice(out, func(i, j int) bool { return out[i].Pos() < out[j].Pos() })
+		return out
+	}
 	var fit []pair
 	for _, p := range pairs {
-		for _, m := range c11Methods(p.t) {
-			if c11HandlerSig(m.Type().(*types.Signature)) {
-				fit = append(fit, p)
-				break
-			}
+		if len(servingOf(p.t)) > 0 {
+			fit = append(fit, p)
 		}
 	}
 	if len(fit) != 1 {
@@ -157,12 +176,7 @@ func c11ResolveRouter(c *core.Ctx) *c11Router {
 		return nil
 	}
 	r.instF, r.miT = fit[0].f, fit[0].t
-	var serving []*types.Func
-	for _, m := range c11Methods(r.miT) {
-		if c11HandlerSig(m.Type().(*types.Signature)) {
-			serving = append(serving, m)
-		}
-	}
+	serving := servingOf(r.miT)
 	if len(serving) > 1 {
 		for _, m := range serving {
 			if m.Name() == "serveHTTP" {
@@ -171,7 +185,7 @@ func c11ResolveRouter(c *core.Ctx) *c11Router {
 		}
 	}
 	if len(serving) != 1 {
-		c.Errorf("R-C11: anchor: %s has %d methods with the request-serving signature", r.miT.Obj().Name(), len(serving))
+		c.Errorf("R-C11: anchor: %s has %d functions with the request-serving signature", r.miT.Obj().Name(), len(serving))
 		return nil
 	}
 	r.serveInst = serving[0]
